@@ -86,4 +86,48 @@ PROPS = {
             "for handlers with a body, memory is compared outside the stack at/below the frame and outside the handler counters; for empty handlers the comparison is exact outside the 4 frame bytes",
         ],
     },
+    "C18": {
+        "parts": [
+            {"id": "C18", "runs": {"quick": 150_000, "thorough": 4_000_000},
+             "probes": ["event.batches_with_several_lines", "event.batches_delivered_while_paused", "probe.malformed_line_followed_by_lines_in_same_batch",
+                        "probe.quiet_point_checks", "probe.ended_by_stop", "probe.ended_paused", "probe.ran_to_exit", "probe.wait_start"]},
+        ],
+        "rule": SIG_RULE + "C18/E1 runs: a script of 1-60 well-formed (u8 pokes to a sequence cell with increasing values and to scratch bytes, ioport pin levels, cmd:pause/start/stop) and malformed lines "
+                "(wrong field counts for every verb, unknown verbs, empty, non-hex, overflow, 10 kB fields, non-ASCII) cut into polling batches (all-in-one, one-per-poll, random) attached to seeded iterations incl. "
+                "iteration 0 under wait-for-start and iterations while paused; signature = sequence of (batch size, paused?, class of every line); non-trivial = at least one line delivered.",
+        "assumptions": [
+            "eventual application: effects are compared with the reference interpreter only at quiet points (more polls since the last delivery than lines in the script + 4) and after run() returned, so an implementation handling one line per poll would pass",
+            "cmd:stop is always the last line of a script (lines after a stop are moot)",
+            "hex fields are plain hex digits (a leading + is not generated); u8 targets are scratch bytes no guest touches, so the final image must be the initial image plus exactly the poked bytes",
+        ],
+    },
+    "C13": {
+        "parts": [
+            {"id": "C13", "runs": {"quick": 6_400, "thorough": 200_000}, "time_limit": {"quick": 120, "thorough": 1500},
+             "probes": ["probe.ran_to_exit", "probe.ended_by_failing_instruction", "probe.sync_thresholds_crossed", "probe.ended_within_4000_states_of_a_threshold",
+                        "probe.example_elf_through_real_loader", "probe.timer_register_stores_seen", "probe.timer_request_totals_checked", "event.host_sleeps", "event.host_stalls"]},
+        ],
+        "rule": SIG_RULE + "C13 runs: a generated terminating (or deliberately failing) guest, or one of three example ELF files through the real loader, executed by the reference step loop and by run() under 4-6 host-clock models "
+                "(fast, slow with sleep overshoot, coarse 15.6 ms clock, stalls of 0.1-5 s, mixed) plus a repeat; signature = (instruction count, final state count, message count, per-model sleep counts); non-trivial = more than one instruction executed.",
+        "assumptions": [
+            "the factor between an instruction's returned states and what run() charges is one constant integer >= 1, inferred from the first instruction (3 in the shipped code); not fixed by the oracle",
+            "reset-value bus-controller settings (hostile settings are C15 ground)",
+            "the reference loop is built from the real fetch/exec/try_interrupt/update_modules through the H1 accessors: it decides ordering, termination, accounting and messages of run(), not instruction semantics",
+        ],
+    },
+    "C14": {
+        "parts": [
+            {"id": "C14", "runs": {"quick": 200_000, "thorough": 5_000_000},
+             "probes": ["probe.write_calls_checked", "probe.set_handler_installed", "probe.set_handler_ignored_vector", "probe.entries_through_installed_handler",
+                        "event.irq_right_behind_set_handler", "probe.unsupported_call_stops_with_error", "probe.buffer_at_region_end", "probe.zero_length_write", "probe.write_ge_256_bytes"]},
+        ],
+        "rule": SIG_RULE + "C14 runs: generated guests with write calls (lengths 0-4096, UTF-8 incl. NUL/newline/backslash/2-4-byte sequences, buffers in RAM/DRAM and ending at the last byte of either), marker port stores between them, "
+                "set_handler calls (vectors in and outside 1-63, re-installation) followed by injected requests right behind the call or later, and unsupported call numbers; signature = sequence of (call kind, entry distance) + emission count; "
+                "non-trivial = at least one system call executed.",
+        "assumptions": [
+            "scope: emission history, nothing-else-changes at write calls, set_handler through a later interrupt; exhaustiveness over buffer contents is not claimed (that part of the quantifier is a pure function)",
+            "for set_handler only 'execution continues behind the call' and 'no other vector entry changes' are required (the property does not state register/memory preservation for it)",
+            "console bytes are captured by redirecting the worker's stdout to a file it owns",
+        ],
+    },
 }
